@@ -29,6 +29,7 @@ let string_of_bits l = if l = [] then "-" else String.concat "" (List.map (fun b
 let string_of_rows rows = String.concat "/" (List.map string_of_bits rows)
 let string_of_bool b = if b then "1" else "0"
 let bytes_of_hex s =
+  if s = "-" then [] else
   List.init (String.length s / 2) (fun i -> z_of_int (int_of_string ("0x" ^ String.sub s (2 * i) 2)))
 
 let string_of_exn = function
@@ -60,6 +61,22 @@ let string_of_code c =
   Printf.sprintf "OK %d %s %d %s %s" (int_of_z c.c_version) (soz c.c_error) (int_of_z c.c_mask)
     (string_of_rows c.c_matrix) (String.concat ";" (List.map string_of_segment c.c_segments))
 
+let string_of_level = function None -> "-" | Some LvL -> "L" | Some LvM -> "M" | Some LvQ -> "Q" | Some LvH -> "H"
+let string_of_dmode = function DNumeric -> "numeric" | DAlnum -> "alphanumeric" | DByte -> "byte" | DKanji -> "kanji" | DHanzi -> "hanzi"
+let hex_of_zlist l = String.concat "" (List.map (fun z -> Printf.sprintf "%02x" (int_of_z z)) l)
+let string_of_dseg s =
+  Printf.sprintf "%s,%s,%d,%s" (string_of_dmode s.d_mode) (soz s.d_eci) (int_of_z s.d_count) (hex_of_zlist s.d_bytes)
+let string_of_decoded d =
+  Printf.sprintf "OK %d %s %d %s %s %s %s" (int_of_z d.dec_version) (string_of_level d.dec_level) (int_of_z d.dec_mask)
+    (match d.dec_sa with None -> "-" | Some ((a, b), c) -> Printf.sprintf "%d,%d,%d" (int_of_z a) (int_of_z b) (int_of_z c))
+    (if d.dec_segments = [] then "-" else String.concat ";" (List.map string_of_dseg d.dec_segments))
+    (hex_of_zlist d.dec_data_codewords) (string_of_bits d.dec_tail)
+
+let segs_of_string s =
+  if s = "-" then [] else
+  List.map (fun t -> match String.split_on_char ',' t with
+                     | [m; c; e] -> ((zi m, zi c), e = "1") | _ -> failwith "bad seg") (String.split_on_char ';' s)
+
 let handle toks =
   match toks with
   | ["classify"; size; border; rows] ->
@@ -70,6 +87,27 @@ let handle toks =
       (match encode (List.map part_of_string parts) (ozi error) (ozi version) (ozi mode) (ozi mask) (eci = "1") (obool micro) (boost = "1") with
        | Ok c -> string_of_code c
        | Err e -> "ERR " ^ string_of_exn e)
+  | ["decode"; rows] ->
+      (match decode_symbol (rows_of_string rows) with Some d -> string_of_decoded d | None -> "NONE")
+  | ["c02"; rows; v; l; mask] -> string_of_zlist (c02_check (rows_of_string rows) (zi v) (ozi l) (zi mask))
+  | ["c03"; rows] -> string_of_zlist (c03_check (rows_of_string rows))
+  | ["c13"; rows] ->
+      (match c13_check (rows_of_string rows) with
+       | None -> "NONE"
+       | Some ((((iso, kf), v), cap), len) ->
+           Printf.sprintf "%s %s %d %d %d" (string_of_bool iso) (string_of_bool kf) (int_of_z v) (int_of_z cap) (int_of_z len))
+  | ["kf_pad"; v; cap; len] -> string_of_bool (kf_pad_aligned (zi v) (zi cap) (zi len))
+  | ["bestmask"; rows; used] ->
+      let r = rows_of_string rows in
+      Printf.sprintf "%d %s" (int_of_z (iso_best_mask r (zi used))) (string_of_zlist (candidate_scores r (zi used)))
+  | ["iso_penalty"; rows] -> string_of_int (int_of_z (iso_penalty (rows_of_string rows)))
+  | ["iso_micro_score"; rows] -> string_of_int (int_of_z (iso_micro_score (rows_of_string rows)))
+  | ["spec_mode"; hex] -> string_of_int (int_of_z (spec_mode (bytes_of_hex hex)))
+  | ["spec_version"; micro; eci; l; sa; segs] ->
+      (match spec_version (obool micro) (eci = "1") (ozi l) (segs_of_string segs) (sa = "1") with
+       | Some v -> string_of_int (int_of_z v) | None -> "NONE")
+  | ["spec_boost"; v; req; sa; segs] -> string_of_int (int_of_z (spec_boost (zi v) (zi req) (segs_of_string segs) (sa = "1")))
+  | ["spec_bits"; v; sa; segs] -> string_of_int (int_of_z (spec_bits (zi v) (segs_of_string segs) (sa = "1")))
   | ["find_mode"; hex] -> string_of_int (int_of_z (find_mode (bytes_of_hex hex)))
   | ["mask_scores"; rows] ->
       let r = rows_of_string rows in
